@@ -187,6 +187,7 @@ def read_dark(case, ctx):
     level = case["offset"] if dt == "float" else float(int(abs(case["offset"])) + 200)
     base = np.full(shape, level).astype({"float": float, "int64": np.int64, "uint16": np.uint16, "int32": np.int32}[dt])
     ctx.tag("frame:" + dt)
+    base = gen.relayout(base, ["C", "F", "strided"][case["seed"] % 3])
     base0 = base.copy()
     with lentil_call("C18.read", f"read_noise({dt} frame)"):
         out = np.asarray(detector.read_noise(base, sig, seed=case["seed"]), dtype=float)
